@@ -309,8 +309,12 @@ fn run_row(case: &Value, k: &Keys) -> Vec<(String, Value, Value)> {
       let verified = item.verify(&rec, &key);
       let seen = rec.seen.borrow();
       let want_call = b(&case["verifier_called"]);
-      if want_call != !seen.is_empty() {
-        diffs.push(("verifier_consulted".into(), json!(want_call), json!(!seen.is_empty())));
+      if verified.is_ok() && seen.is_empty() {
+        // reported verified although no signature check was made at all
+        diffs.push(("verified_without_check".into(), json!("the verifier is consulted"), json!("not consulted")));
+      } else if want_call != !seen.is_empty() {
+        // refusing before (or after) consulting the verifier is the implementation's choice
+        diffs.push(("~verifier_consulted".into(), json!(want_call), json!(!seen.is_empty())));
       }
       for (alg, si_seen, sig_seen, key_seen) in seen.iter() {
         if alg != s(&tok["alg"]) || si_seen != &si || Some(sig_seen.as_slice()) != decode_b64(&bt.sig_seg).ok().as_deref() || key_seen != &serde_json::to_string(&key).unwrap() {
